@@ -403,20 +403,32 @@ def task_embed(sh, other, host, sub, profile=False):
         total_after = None
         for b in res.blocklist:
             total_after = b.volume if total_after is None else total_after + b.volume
+        # round 4: the result is read by list position and name (not by identity with the operands' objects), so that an
+        # embed() / __add__ that builds its result from copies of the operands is judged by the same clauses
+        nb1, nb2, k1, k2 = len(p.blocks), len(p2.blocks), len(p.cons), len(p2.cons)
+        rb, rc = list(res.blocklist), list(res.connectionlist)
+        want_pairs = [tuple(b.name for b in x.block) for x in p.cons + p2.cons + [con]]
         checks = [('total-volume', 'embedding conserves the total volume of the host grid', req(total_after, total_before)),
                   ('block-lists', 'result lists the host grid\'s blocks then the sub-grid\'s',
-                   [id(b) for b in res.blocklist] == [id(b) for b in p.blocks + p2.blocks]),
+                   z_and([len(rb) == nb1 + nb2] + [eqf(b.name, n) for b, n in zip(rb, p.bnames + p2.bnames)])),
                   ('connection-lists', 'result lists the host connections, the sub-grid connections, then the embedding connection',
-                   [id(x) for x in res.connectionlist] == [id(x) for x in p.cons + p2.cons + [con]])]
-        for idx, (b, name, vol, rock, ctr) in enumerate(snap.blocks):
-            ev = vol - subvol if idx == host else vol
-            checks.append(('host-volumes', 'host grid block %d has the expected volume' % idx, req(b.volume, ev)))
-        for idx, (b, name, vol, rock, ctr) in enumerate(snap2.blocks):
-            checks.append(('sub-volumes', 'sub-grid block %d keeps its volume' % idx, req(b.volume, vol)))
+                   z_and([len(rc) == k1 + k2 + 1] + [G.tup_eq(tuple(b.name for b in x.block), t) for x, t in zip(rc, want_pairs)]))]
+        if len(rb) == nb1 + nb2:
+            for idx in range(nb1):
+                ev = p.vol[idx] - subvol if idx == host else p.vol[idx]
+                checks.append(('host-volumes', 'host grid block %d has the expected volume' % idx, req(rb[idx].volume, ev)))
+            for idx in range(nb2):
+                checks.append(('sub-volumes', 'sub-grid block %d keeps its volume' % idx, req(rb[nb1 + idx].volume, p2.vol[idx])))
         checks += connection_checks(snap) + connection_checks(snap2)
-        checks.append(('embedding-connection', 'the embedding connection joins host block and sub-grid block with the given data',
-                       z_and([len(con.block) == 2 and con.block[0] is p.blocks[host] and con.block[1] is p2.blocks[sub],
-                              vec_eq(list(con.distance), d), req(con.area, area), req(con.dircos, dc)])))
+        if len(rc) == k1 + k2 + 1:
+            for q, ph in enumerate(p.phys + p2.phys):
+                checks.append(('result-connection-data', 'connection %d of the result carries the data of the operand\'s connection' % q,
+                               z_and([vec_eq(list(rc[q].distance), ph['d']), req(rc[q].area, ph['area']), req(rc[q].dircos, ph['dircos']),
+                                      req(rc[q].direction, ph['direction'])])))
+            ec = rc[-1]
+            checks.append(('embedding-connection', 'the embedding connection joins host block and sub-grid block with the given data',
+                           z_and([len(ec.block) == 2, G.tup_eq(tuple(b.name for b in ec.block), (p.bnames[host], p2.bnames[sub])),
+                                  vec_eq(list(ec.distance), d), req(ec.area, area), req(ec.dircos, dc)])))
         def replay_of(m):
             return dict(op='embed', pre=G.concrete_pre(m, p),
                         args=dict(other=G.concrete_pre(m, p2), host=host, sub=sub,
@@ -426,6 +438,87 @@ def task_embed(sh, other, host, sub, profile=False):
 
     res = sym.explore(h, G.FastCtx(timeout_ms=30000), max_paths=3000, profile_repo=profile)
     tr = report.summarize('embed/%s/%s' % (G.shape_id(sh), G.shape_id(other)), res, failures, samples,
+                          extra=dict(distinct_obligations=len(distinct), reached=reached[0]))
+    if not reached[0]: tr['error'] = 'vacuous: no path reached the obligations'
+    return tr
+
+
+_LDV = None
+def _load_fs():
+    """second copy of the modules with an in-memory file system (the write/read composition); once, in the parent."""
+    global _LDV
+    if _LDV is None:
+        from vx import vfs as vfsmod
+        fs = vfsmod.VFS()
+        _LDV = (loader.load(['t2data'], vfs=fs), fs)
+    return _LDV
+
+
+def task_writeread(sh, rpat, rename=False, profile=False):
+    """round 4: "... followed optionally by a write/read of the data file".  Grid with symbolic block names (letters) and
+    symbolic ROCK TYPE names over letters, digits and blank (numeric names like '    3' and names with blanks included),
+    reordered (both lists reversed, every connection listed reversed), optionally renamed (symbolic one-to-one map over
+    letters), written with the real t2data.write and read back with the real t2data.read: the file read back lists the
+    same rock types, every block (by list position) carries its name and ITS rock type, the connections join the same
+    pairs.  Numbers are concrete here (their round trip through the fixed-width fields is C01's subject)."""
+    ld, fs = _load_fs(); T = ld.t2grids
+    from harness import C08
+    failures, samples, distinct, perkey = [], [], set(), {}
+    reached = [0]
+    nb, k = sh['nb'], len(sh['cons'])
+    opname = ('reorder+rename_blocks' if rename else 'reorder') + '+write/read'
+
+    def h(c):
+        fs.files.clear()
+        p = G.build(c, T, sh, alpha='alnumsp', phys=False, volumes=False)
+        for nm in p.bnames:
+            for cell in nm.cells: c.add(z3.And(cell.code >= 97, cell.code <= 122))
+        # rpat: per rock type the character class of each cell (L letter, D digit, B blank): a shape choice that keeps
+        # strip() / isdigit() / int() of a symbolic name from forking 3^5 ways in code that looks at its characters
+        for nm, pat in zip(p.rnames, rpat):
+            for cell, k_ in zip(nm.cells, pat):
+                if k_ == 'B': c.add(cell.code == 32)
+                elif k_ == 'D': c.add(z3.And(cell.code >= 48, cell.code <= 57))
+                else: c.add(z3.Or(z3.And(cell.code >= 97, cell.code <= 122), z3.And(cell.code >= 65, cell.code <= 90)))
+        for i, b in enumerate(p.blocks): b.centre = G._np.array([1.0 * i, 2.0, 3.0])
+        dat = ld.t2data.t2data(); dat.grid = p.g
+        border, corder = list(range(nb))[::-1], list(range(k))[::-1]
+        keys = vals = []
+        raised = None
+        g2 = None
+        try:
+            p.g.reorder([p.bnames[i] for i in border], [(p.bnames[sh['cons'][q][1]], p.bnames[sh['cons'][q][0]]) for q in corder] or None)
+            if rename:
+                keys, vals, bm = C08._rename_map(c, p, dict(m=1, alpha='lower', fix_precondition=False), p.bnames)
+                p.g.rename_blocks(bm, fix_blocknames=False)
+            want_names = [p.blocks[i].name for i in border]
+            want_pairs = [tuple(b.name for b in p.cons[q].block) for q in corder]
+            dat.write('c09.dat')
+            g2 = ld.t2data.t2data('c09.dat').grid
+        except Exception as ex:
+            raised = '%s: %s' % (type(ex).__name__, str(ex.args[:1])[:80])
+        reached[0] += 1
+        checks = [('raised', 'reorder, write and read complete (%s)' % raised, raised is None)]
+        if g2 is not None:
+            checks.append(('rocktypes-listed', 'the file read back lists the same rock types in the same order',
+                           z_and([len(g2.rocktypelist) == sh['nr']] + [eqf(r.name, n) for r, n in zip(g2.rocktypelist, p.rnames)])))
+            checks.append(('block-order', 'the file read back lists the blocks in the order of the block list, under their names',
+                           z_and([len(g2.blocklist) == nb] + [eqf(b.name, n) for b, n in zip(g2.blocklist, want_names)])))
+            if len(g2.rocktypelist) == sh['nr']:
+                for pos, (b, i) in enumerate(zip(g2.blocklist, border)):
+                    checks.append(('block-rocktype', 'block %d comes back with its own rock type' % i,
+                                   b.rocktype is g2.rocktypelist[sh['brock'][i]]))
+            checks.append(('connection-order', 'the file read back lists the connections in list order, joining the same pairs',
+                           z_and([len(g2.connectionlist) == k] +
+                                 [G.tup_eq(tuple(b.name for b in x.block), t) for x, t in zip(g2.connectionlist, want_pairs)])))
+        def replay_of(m):
+            return dict(op='writeread', pre=G.concrete_pre(m, p),
+                        args=dict(rename=[[name_value(m, a), name_value(m, b)] for a, b in zip(keys, vals)]))
+        _finish_path(c, opname, sh, checks, failures, distinct, samples, replay_of, perkey, klass_default='rock-names-letters-digits-blank')
+        return 'ok' if raised is None else 'raised'
+
+    res = sym.explore(h, G.FastCtx(timeout_ms=30000), max_paths=400, profile_repo=profile)
+    tr = report.summarize('%s/%s/%s' % (opname, G.shape_id(sh), ','.join(rpat)), res, failures, samples,
                           extra=dict(distinct_obligations=len(distinct), reached=reached[0]))
     if not reached[0]: tr['error'] = 'vacuous: no path reached the obligations'
     return tr
@@ -451,7 +544,7 @@ def list_checks(snap, g, klass='any'):
     return out
 
 
-def task_fromgeo_reorder(nx, ny, nz, atmos_type, how='explicit', scramble='rev-all', profile=False):
+def task_fromgeo_reorder(nx, ny, nz, atmos_type, how='explicit', scramble='rev-all', surf=(), profile=False):
     """grid produced by the real rectangular()+fromgeo() with symbolic spacings.
     how 'explicit': reorder to the reversed block list with every connection listed reversed.
     how 'geo': the grid is first scrambled with explicit lists (`scramble`: 'none', 'rev-all' = both lists reversed and
@@ -462,6 +555,7 @@ def task_fromgeo_reorder(nx, ny, nz, atmos_type, how='explicit', scramble='rev-a
     failures, samples, distinct, perkey = [], [], set(), {}
     reached = [0]
     shname = 'rect%dx%dx%d_atm%d' % (nx, ny, nz, atmos_type) + ('' if how == 'explicit' else '_geo_' + scramble)
+    if surf: shname += '_surf' + ''.join(str(i) for i in surf)
     op = 'reorder' if how == 'explicit' else 'reorder(geo)'
     klass = 'any' if how == 'explicit' else 'atmosphere-type-%d' % atmos_type
 
@@ -470,7 +564,28 @@ def task_fromgeo_reorder(nx, ny, nz, atmos_type, how='explicit', scramble='rev-a
         dy = [c.real('dy%d' % i, 0, strict_lo=True) for i in range(ny)]
         dz = [c.real('dz%d' % i, 0, strict_lo=True) for i in range(nz)]
         geo = ld.mulgrids.mulgrid().rectangular(dx, dy, dz, atmos_type=atmos_type)
-        g = T.t2grid().fromgeo(geo)
+        sv = []
+        if surf:
+            # round 4: columns with a ground surface of their own (symbolic elevation, anywhere above the bottom of the
+            # grid: inside a layer, exactly on a layer boundary, above the top) - the geometry's name lists are set up again
+            # the way mulgrid.read() / set_column_surface users do
+            for ci in surf:
+                s_ = c.real('surf%d' % ci); c.add(s_.e > sym.lift_real(geo.layerlist[-1].bottom))
+                geo.columnlist[ci].surface = s_; sv.append(s_)
+            geo.setup_block_name_index(); geo.setup_block_connection_name_index()
+        try:
+            g = T.t2grid().fromgeo(geo)
+        except Exception as ex:
+            if not surf: raise
+            # a legal geometry that fromgeo() cannot turn into a grid: reported as a failure of its own, not as a harness error
+            reached[0] += 1
+            why = '%s: %r' % (type(ex).__name__, ex.args[:1])
+            _finish_path(c, 'fromgeo', shname, [('raised', 'fromgeo() completes on a geometry with its own column surfaces (%s)' % why, False, klass)],
+                         failures, distinct, samples,
+                         lambda m: dict(op='fromgeo_reorder', args=dict(dx=[num_value(m, x) for x in dx], dy=[num_value(m, x) for x in dy],
+                                                                        dz=[num_value(m, x) for x in dz], atmos_type=atmos_type, how=how, scramble=scramble,
+                                                                        surf=[[ci, num_value(m, x)] for ci, x in zip(surf, sv)])), perkey)
+            return 'fromgeo-raised'
         snap = G.snapshot(g)
         bn = [b.name for b in g.blocklist][::-1]
         raised = None
@@ -502,7 +617,8 @@ def task_fromgeo_reorder(nx, ny, nz, atmos_type, how='explicit', scramble='rev-a
         def replay_of(m):
             return dict(op='fromgeo_reorder', args=dict(dx=[num_value(m, x) for x in dx], dy=[num_value(m, x) for x in dy],
                                                          dz=[num_value(m, x) for x in dz], atmos_type=atmos_type,
-                                                         how=how, scramble=scramble))
+                                                         how=how, scramble=scramble,
+                                                         surf=[[ci, num_value(m, x)] for ci, x in zip(surf, sv)]))
         _finish_path(c, op, shname, checks, failures, distinct, samples, replay_of, perkey)
         return 'ok'
 
@@ -597,6 +713,27 @@ def catalogue(tier):
         for at in (0, 1, 2):
             for scr in ('none', 'rev-all', 'rev-alt'):
                 add(task_fromgeo_reorder, nx=dims[0], ny=dims[1], nz=dims[2], atmos_type=at, how='geo', scramble=scr)
+    # round 4: geometries whose columns have a ground surface of their own (symbolic elevation: inside any layer, exactly
+    # on a layer boundary, above the top), i.e. columns of different depth and atmosphere connections below the top layer
+    for at in (0, 1, 2):
+        add(task_fromgeo_reorder, nx=2, ny=1, nz=3, atmos_type=at, how='geo', scramble='rev-alt', surf=(1,))
+        add(task_fromgeo_reorder, nx=2, ny=1, nz=2, atmos_type=at, surf=(0,))
+        if tier != 'quick':
+            add(task_fromgeo_reorder, nx=2, ny=2, nz=3, atmos_type=at, how='geo', scramble='rev-all', surf=(0, 3))
+            add(task_fromgeo_reorder, nx=3, ny=1, nz=4, atmos_type=at, how='geo', scramble='none', surf=(1,))
+            add(task_fromgeo_reorder, nx=2, ny=1, nz=3, atmos_type=at, surf=(0, 1))
+    # round 4: composition with a write/read of the data file, rock type names symbolic over letters, digits and blank
+    # (numeric names have ONE digit: int() of several symbolic digits used as a list index sends z3's optimiser away for minutes)
+    wr = [(G.shape(2, [(0, 1)], nr=2, brock=[0, 1]), ['BBBBD', 'LLLLL'], False),
+          (G.shape(2, [(0, 1)], nr=2, brock=[1, 0]), ['LLLLB', 'BBBBD'], False),
+          (G.shape(3, [(0, 1), (2, 1)], nr=3, brock=[2, 0, 1]), ['LLLLL', 'BBBBD', 'BBBBD'], False),
+          (G.shape(2, [(1, 0)], nr=2, brock=[1, 1]), ['LLBDD', 'BBBBD'], True)]
+    if tier != 'quick':
+        wr += [(G.shape(4, [(0, 1), (2, 1), (2, 3)], nr=3, brock=[1, 2, 0, 1]), ['BBBBD', 'LLLLL', 'BBDBB'], False),
+               (G.shape(3, [(0, 1), (2, 1)], nr=3, brock=[1, 0, 2]), ['LLLLL', 'BBBBD', 'BBBBD'], True),
+               (G.shape(3, [(0, 1)], nr=4, brock=[3, 1, 2]), ['BBBBD', 'BBBBD', 'LBBBD', 'DBBBB'], False)]
+    for sh, rpat, ren in wr:
+        add(task_writeread, sh=sh, rpat=rpat, rename=ren)
     seen = set()
     for f, kw in tasks:        # the slow sys.setprofile pass (which repo functions ran) once per kind of task
         if f not in seen and (f is task_fromgeo_reorder or kw['sh']['nb'] >= 2):
@@ -622,7 +759,7 @@ def schedule(tasks):
 
 
 def run(tier, seed, rep):
-    _load()
+    _load(); _load_fs()
     tasks = catalogue(tier)
     flt = os.environ.get('VX_TASK_FILTER')
     if flt:
@@ -656,9 +793,21 @@ def run(tier, seed, rep):
         'embed: host grids of 1..%d blocks, sub-grids of 1..2 blocks, symbolic volumes and names (aliasing decided by the solver)' % (2 if tier == 'quick' else 4),
         'grids built by the real rectangular()+fromgeo() with symbolic spacings (2x1x2%s, atmosphere types 0,1,2) reordered with every connection reversed' % ('' if tier == 'quick' else ', 2x2x2, 3x1x2'),
     ]
+    rep.bounds += [
+        'round 4: geometries with columns that have a ground surface of their own (symbolic elevation anywhere above the bottom of the grid: inside any '
+        'layer, exactly on a layer boundary, above the top): rectangular 2x1x3 with one such column, scrambled, then reorder(geo = geo); 2x1x2 with one such '
+        'column reordered with every connection reversed%s; atmosphere types 0,1,2' % ('' if tier == 'quick' else '; 2x2x3 with two, 3x1x4 with one, 2x1x3 with two such columns'),
+        'round 4: composition with a write/read of the data file (real t2data.write / t2data.read on an in-memory file): %s, symbolic block names over letters, '
+        'symbolic rock type names over per-cell classes letter / digit / blank (numeric names with one digit such as "    3", blank-padded and mixed names), '
+        'reorder with both lists and every connection reversed (and a symbolic 1-entry rename), then write + read: same rock types listed, every block comes '
+        'back under its name with ITS rock type, connections join the same pairs in list order; numbers concrete'
+        % ('2 blocks / 2 rock types, 3 blocks / 3 rock types' if tier == 'quick' else '2..4 blocks, 2..4 rock types'),
+    ]
     rep.outside += [
         'MINC connection distances and areas (scipy.optimize.bisect on the proximity function: numerical root finding on floats)',
-        'write/read of the data file after the operation (composition with the C01 round trip)',
+        'write/read of the data file after the operation for the NUMBERS (rounding into the fixed-width fields is the C01 / C02 round trip); block names '
+        'that fix_blockname / unfix_blockname rewrite and numeric rock names of several digits are not in the write/read tasks; blocks without a centre '
+        'are not written there (the engine cannot format an object whose __str__ is symbolic)',
         'compositions of several operations beyond rename->reorder (each single step is proved from an arbitrary pre-state instead, '
         'so any composition that stays within the size bound inherits the result)',
         'irregular geometries as inputs (the pre-state is an arbitrary symbolic grid of <=4 blocks, which subsumes their values but not their sizes)',
